@@ -2,6 +2,7 @@ import Ypv.Lemmas.Doc
 import Ypv.Lemmas.EvalKwLoc
 import Ypv.Lemmas.WriteSim
 import Ypv.Lemmas.PathResolve
+import Ypv.Lemmas.PathPop
 /-!
 # C02 — every result locates its node
 
@@ -281,6 +282,29 @@ theorem path_reresolves_query {d : Node} (hd : d.WF) (hc : W1.docClear d = true)
   obtain ⟨ss, hl⟩ := results_pathed (mt := mt) (dsc := dsc) (rt := rt) hd segs hk n c h
   exact ⟨ss, hl.path.1, hl.path.2, fun hok hal mt' dsc' =>
     ⟨(path_reresolves hd hc hl hok hal mt' dsc').2, fun f => path_reresolves_as f hd hc hl hok hal mt' dsc'⟩⟩
+
+open Ypv.Acc in
+/-- **`[parent()]` and the reported path — C02-K5 as an explicit hypothesis.**  The evaluator model's
+`ctxUp c 1` (what `KeywordSearches.parent` leaves) drops the last path section; the library pops it
+with `YAMLPath.pop()`.  For coordinates whose sections are those of the steps `s0 :: r ++ [s]` (all
+expressible) and whose LAST section is not an anchor section, `pop()` on the accumulated object
+returns the last segment and leaves exactly the text of the object accumulated for `ctxUp c 1`.
+For an anchor section it does not (kernel-checked in `Lemmas/PathPop.lean`: `a.[&x]` stays `a.[&x]`). -/
+theorem pop_is_ctxUp (c : Ctx) (s0 : Sec) (r : List Sec) (s : Sec)
+    (hpath : c.path = (s0 :: (r ++ [s])).map Sec.mtext)
+    (hok : (s0 :: (r ++ [s])).all Sec.ok = true) (hna : s.isAnc = false) :
+    C08.popView (accObj c.path) = .ok (s.lseg.seg false, (accObj (ctxUp c 1).path).original) := by
+  have hok' : ∀ x ∈ s0 :: (r ++ [s]), x.ok = true := List.all_eq_true.mp hok
+  have hna' : ∀ a, s ≠ .anc a := by intro a h; subst h; simp [Sec.isAnc] at hna
+  have hup : (ctxUp c 1).path = (s0 :: r).map Sec.mtext := by
+    simp [ctxUp, hpath]
+  obtain ⟨hacc, hnt, _, _⟩ := raw_steps s0 r (fun x hx => hok' x (by
+    simp only [List.mem_cons, List.mem_append] at hx ⊢
+    rcases hx with h | h
+    · exact Or.inl h
+    · exact Or.inr (Or.inl h)))
+  rw [hpath, pop_section s0 r s hok' hna', hup, hacc]
+  simpa [PathObj.new, PathObj.setOriginal] using hnt.symm
 
 /-! ### The hypotheses of `path_reresolves` are met, and each excluded class is a real failure -/
 
